@@ -1156,3 +1156,165 @@ func genBig(r *rand.Rand, lo, hi int) vh.Case {
 	return vh.Case{Coq: fmt.Sprintf("(CaseB %d %d %d %d [%s])%%Z", start, step, count, stride, strings.Join(steps, ";\n ")), Nontrivial: true,
 		Desc: map[string]interface{}{"kind": "big wrapper tree", "keys": fmt.Sprintf("%d + %d*i, i = (j*%d) mod %d, j = 0..%d, payload = key+7", start, step, stride, count, count-1), "scans": descs}}
 }
+
+// ---------------------------------------------------------------- clone programs with Clear and a shared small free list
+
+func panics(f func()) (p bool) {
+	defer func() {
+		if recover() != nil {
+			p = true
+		}
+	}()
+	f()
+	return false
+}
+
+// all trees of the program are made with NewWithFreeList on one free list of 1..4 (or 32) nodes, so that nodes freed by
+// one tree (merges, collapsing roots, Clear(true)) are handed to whichever tree allocates next and the list is often
+// full; Clear(true/false) on originals and clones, right after Clone and later, followed by bursts of inserts (on the
+// cleared tree and on the others) that take the recycled nodes; snapshots of all handles after every Clear and burst
+func genCloneClear(r *rand.Rand, deg int) vh.Case {
+	// the documented panics of the constructors and of ReplaceOrInsert(nil) are checked here directly
+	capFL := []int{1, 1, 2, 3, 4, 32}[r.Intn(6)]
+	fl := btree.NewFreeList(capFL)
+	hs := make([]*btree.BTree, 4)
+	hs[0] = btree.NewWithFreeList(deg, fl)
+	bad := ""
+	switch {
+	case !panics(func() { btree.NewWithFreeList(r.Intn(2), fl) }):
+		bad = "NewWithFreeList(degree <= 1) did not panic"
+	case !panics(func() { btree.New(1 - r.Intn(3)) }):
+		bad = "New(degree <= 1) did not panic"
+	case !panics(func() { hs[0].ReplaceOrInsert(nil) }):
+		bad = "ReplaceOrInsert(nil) did not panic"
+	case hs[0].Len() != 0:
+		bad = "ReplaceOrInsert(nil) changed the length"
+	}
+	if bad != "" {
+		return vh.Case{Coq: "CaseFatal", Nontrivial: true, Desc: map[string]interface{}{"kind": "documented panic missing", "what": bad}}
+	}
+	sets := make([]*keyset, 4)
+	sets[0] = newKeyset()
+	pay := 1
+	steps := []stepRec{}
+	u := universe(r, deg)
+	if u > 40 {
+		u = 40
+	}
+	live := func() []int {
+		l := []int{}
+		for i, h := range hs {
+			if h != nil {
+				l = append(l, i)
+			}
+		}
+		return l
+	}
+	rec := func(c, res, sh, s string) { steps = append(steps, stepRec{"(" + c + ", " + res + ", " + sh + ")", s}) }
+	snap := func() {
+		o := snapshot(hs)
+		rec("CSnap", o.coq(), "None", "Snapshot = "+o.String())
+	}
+	on := func(h int, o iop, shape bool) {
+		if o.kind == "ins" {
+			o.x.p = pay
+			pay++
+		}
+		res := applyI(hs[h], o)
+		shadowI(sets[h], o, res)
+		sc, ss := optShape(hs[h], shape)
+		rec(fmt.Sprintf("COn %d%%nat (%s)", h, o.coq()), res.coq(), sc, fmt.Sprintf("h%d.%s = %s%s", h, o.String(), res.String(), ss))
+	}
+	burst := func(h, n int) {
+		for i := 0; i < n; i++ {
+			on(h, iop{kind: "ins", x: kv{anyKey(r, u), 0}}, i == n-1)
+		}
+	}
+	clone := func(src, dst int) {
+		res := obs{kind: "unit"}
+		if panics(func() { hs[dst] = hs[src].Clone() }) {
+			res = obs{kind: "panic", panic: "Clone"}
+		}
+		sets[dst] = newKeyset()
+		for k := range sets[src].m {
+			sets[dst].m[k] = true
+		}
+		csh, css := "None", ""
+		if r.Intn(2) == 0 {
+			which := []int{src, dst}[r.Intn(2)]
+			csh, css = optShape(hs[which], true)
+			css = fmt.Sprintf(" (h%d:%s)", which, css)
+		}
+		rec(fmt.Sprintf("CClone %d%%nat %d%%nat", src, dst), res.coq(), csh, fmt.Sprintf("h%d = h%d.Clone()%s", dst, src, css))
+	}
+	clear := func(h int, add bool) {
+		res := obs{kind: "unit"}
+		if panics(func() { hs[h].Clear(add) }) {
+			res = obs{kind: "panic", panic: "Clear"}
+		}
+		sets[h] = newKeyset()
+		sc, ss := optShape(hs[h], true)
+		rec(fmt.Sprintf("CClear %d%%nat %s", h, coqBool(add)), res.coq(), sc, fmt.Sprintf("h%d.Clear(%v)%s", h, add, ss))
+	}
+	other := func(h int) int {
+		l := live()
+		return l[r.Intn(len(l))]
+	}
+	burst(0, u/2+r.Intn(u))
+	nops := 20 + r.Intn(40)
+	for i := 0; i < nops; i++ {
+		l := live()
+		x := r.Float64()
+		switch {
+		case x < 0.12:
+			src := l[r.Intn(len(l))]
+			dst := r.Intn(4)
+			if dst == src {
+				dst = (dst + 1) % 4
+			}
+			clone(src, dst)
+			if r.Intn(2) == 0 {
+				// Clear of the original or of the clone while every node is shared
+				h := []int{src, dst}[r.Intn(2)]
+				clear(h, r.Intn(4) != 0)
+				snap()
+				burst(other(h), 1+r.Intn(2*deg+2))
+				snap()
+			}
+		case x < 0.24:
+			h := l[r.Intn(len(l))]
+			clear(h, r.Intn(4) != 0)
+			snap()
+			burst(other(h), 1+r.Intn(4*deg))
+			snap()
+		case x < 0.30:
+			dst := r.Intn(4)
+			hs[dst] = btree.NewWithFreeList(deg, fl)
+			sets[dst] = newKeyset()
+			rec(fmt.Sprintf("CNew %d%%nat", dst), "OUnit", "None", fmt.Sprintf("h%d = NewWithFreeList(%d, the shared free list)", dst, deg))
+			burst(dst, 1+r.Intn(3*deg))
+		case x < 0.80:
+			h := l[r.Intn(len(l))]
+			on(h, genInnerOp(r, sets[h], u, r.Intn(3) == 0), r.Intn(4) == 0)
+			if r.Intn(6) == 0 {
+				snap()
+			}
+		case x < 0.92:
+			h := l[r.Intn(len(l))]
+			var o iop
+			if r.Intn(2) == 0 {
+				o = iop{kind: "len"}
+			} else {
+				o = iop{kind: "scan", e: r.Intn(10), p: anyPivot(r, u), q: anyPivot(r, u), m: pickStopAfter(r, len(sets[h].m))}
+			}
+			res := applyI(hs[h], o)
+			rec(fmt.Sprintf("COn %d%%nat (%s)", h, o.coq()), res.coq(), "None", fmt.Sprintf("h%d.%s = %s", h, o.String(), res.String()))
+		default:
+			snap()
+		}
+	}
+	snap()
+	coq, ss := join(steps)
+	return vh.Case{Coq: "(CaseC " + fmt.Sprint(deg) + "%nat " + coq + ")%Z", Nontrivial: true,
+		Desc: map[string]interface{}{"kind": "clone program with Clear on a shared free list", "degree": deg, "free_list_size": capFL, "steps": ss}}
+}
